@@ -1399,6 +1399,8 @@ struct MergeStats {
     results: BTreeSet<[u8; 16]>,
     v1: usize,
     v2: usize,
+    /// groupings predicted to be refused although another grouping of the same copies succeeds
+    refused_groupings: usize,
 }
 
 fn digest16(b: &[u8]) -> [u8; 16] {
@@ -1452,7 +1454,25 @@ fn synthetic_parties(base_l: &V, case: &J, b: &Binding, alt_seed: usize, st: &mu
 /// Executes every grouping and order of the parties (plus the n-ary fold) and compares each outcome
 /// with the predicted one. Returns a description of the first disagreement.
 fn execute_trees(parties: &[Pczt], want: &Option<(V, Vec<u8>)>, trees: &[Vec<u64>], st: &mut MergeStats) -> Option<J> {
+    execute_trees_with(parties, want, trees, st, &|_| want.is_none())
+}
+
+/// The n-ary `Combiner::new(vec![p1, .., pn])` is the left fold in index order: <<1, 2, 0, 3, 0, ..>>.
+fn fold_tree(n: usize) -> Vec<u64> {
+    let mut t = vec![1u64];
+    for i in 2..=n as u64 {
+        t.push(i);
+        t.push(0);
+    }
+    t
+}
+
+/// As `execute_trees`, with a prediction per grouping: `refused(tree)` says the specification predicts a
+/// conflict for that grouping / order; every other grouping must give `want`.
+fn execute_trees_with(parties: &[Pczt], want_any: &Option<(V, Vec<u8>)>, trees: &[Vec<u64>], st: &mut MergeStats, refused: &dyn Fn(&[u64]) -> bool) -> Option<J> {
     let n = parties.len();
+    let nothing: Option<(V, Vec<u8>)> = None;
+    let fold = fold_tree(n);
     // every grouping and order, plus the n-ary left fold in index order
     let mut all: Vec<Vec<u64>> = trees.to_vec();
     all.push(vec![]);
@@ -1491,6 +1511,10 @@ fn execute_trees(parties: &[Pczt], want: &Option<(V, Vec<u8>)>, trees: &[Vec<u64
             }
         };
         let tree = if t.is_empty() { json!("fold") } else { json!(t) };
+        let want = if refused(if t.is_empty() { &fold } else { t }) { &nothing } else { want_any };
+        if !t.is_empty() && want.is_none() && want_any.is_some() {
+            st.refused_groupings += 1;
+        }
         match (got, want) {
             (Err(m), _) => return Some(json!({"what": "combine panicked", "tree": tree, "panic": m})),
             (Ok(None), None) => {}
@@ -1742,6 +1766,328 @@ fn codec_checks(base: &Base, base_l: &V) -> Vec<J> {
     out
 }
 
+// =================================================================================================
+// growth: copies of a shielded bundle whose item lists are still growing (spec/Pczt/PcztGrowth.tla)
+// =================================================================================================
+
+/// 2 Sapling spends -> 2 Sapling outputs, v5 (built as `base_s2s`, with a two-leaf note commitment
+/// tree). Both lists can be shortened independently, so every pair of lengths in (0..2) x (0..2)
+/// is a stage of this transaction's construction.
+fn base_s2s2(seed: u64) -> Base {
+    let extsk = sapling::zip32::ExtendedSpendingKey::master(&[1; 32]);
+    let dfvk = extsk.to_diversifiable_full_viewing_key();
+    let internal = extsk.derive_internal().to_diversifiable_full_viewing_key();
+    let recipient = dfvk.default_address().1;
+    let notes = [
+        sapling::Note::from_parts(recipient, sapling::value::NoteValue::from_raw(1_000_000), sapling::Rseed::AfterZip212([7; 32])),
+        sapling::Note::from_parts(recipient, sapling::value::NoteValue::from_raw(640_000), sapling::Rseed::AfterZip212([8; 32])),
+    ];
+    let leaves: Vec<sapling::Node> = notes.iter().map(|n| sapling::Node::from_cmu(&n.cmu())).collect();
+    let mut tree = ShardTree::<_, 32, 16>::new(MemoryShardStore::<sapling::Node, u32>::empty(), 100);
+    for leaf in &leaves {
+        tree.append(*leaf, incrementalmerkletree::Retention::Marked).unwrap();
+    }
+    tree.checkpoint(9_999_999).unwrap();
+    let paths: Vec<_> = (0..2u64).map(|i| tree.witness_at_checkpoint_depth(i.into(), 0).unwrap().unwrap()).collect();
+    let anchor: sapling::Anchor = paths[0].root(leaves[0]).into();
+    let mut builder = Builder::new(network(false), 10_000_000.into(), standard_cfg(Some(anchor), None, None));
+    for (note, path) in notes.iter().zip(paths) {
+        builder.add_sapling_spend::<zip317::FeeRule>(dfvk.fvk().clone(), note.clone(), path).expect("sapling spend");
+    }
+    builder
+        .add_sapling_output::<zip317::FeeRule>(Some(dfvk.to_ovk(zip32::Scope::External)), recipient, Zatoshis::const_from_u64(130_000), MemoBytes::empty())
+        .expect("sapling output");
+    builder
+        .add_sapling_output::<zip317::FeeRule>(
+            Some(dfvk.to_ovk(zip32::Scope::Internal)),
+            internal.find_address(0u32.into()).unwrap().1,
+            Zatoshis::const_from_u64(1_500_000),
+            MemoBytes::empty(),
+        )
+        .expect("sapling change");
+    let PcztResult { pczt_parts, .. } =
+        builder.build_for_pczt(ChaCha20Rng::seed_from_u64(seed ^ 0x0522), &zip317::FeeRule::standard()).expect("build_for_pczt");
+    let pre = Creator::build_from_parts(pczt_parts).expect("creator");
+    let pczt = IoFinalizer::new(pre.clone()).finalize_io().expect("io finalizer");
+    Base { name: "s2s2", pre, pczt, tkeys: vec![], orchard_ask: None, ironwood_ask: None, sapling_ask: None, deferred: None }
+}
+
+/// Sapling spend -> 1 Sapling output; the builder pads the bundle with a zero-valued dummy output, so two
+/// stages of this bundle's construction have different lengths and the SAME value balance.
+fn base_s2s_dummy(seed: u64) -> Base {
+    let extsk = sapling::zip32::ExtendedSpendingKey::master(&[1; 32]);
+    let dfvk = extsk.to_diversifiable_full_viewing_key();
+    let recipient = dfvk.default_address().1;
+    let note = sapling::Note::from_parts(recipient, sapling::value::NoteValue::from_raw(1_000_000), sapling::Rseed::AfterZip212([7; 32]));
+    let leaf = sapling::Node::from_cmu(&note.cmu());
+    let mut tree = ShardTree::<_, 32, 16>::new(MemoryShardStore::<sapling::Node, u32>::empty(), 100);
+    tree.append(leaf, incrementalmerkletree::Retention::Marked).unwrap();
+    tree.checkpoint(9_999_999).unwrap();
+    let path = tree.witness_at_checkpoint_depth(0.into(), 0).unwrap().unwrap();
+    let anchor: sapling::Anchor = path.root(leaf).into();
+    let mut builder = Builder::new(network(false), 10_000_000.into(), standard_cfg(Some(anchor), None, None));
+    builder.add_sapling_spend::<zip317::FeeRule>(dfvk.fvk().clone(), note, path).expect("sapling spend");
+    builder
+        .add_sapling_output::<zip317::FeeRule>(Some(dfvk.to_ovk(zip32::Scope::External)), recipient, Zatoshis::const_from_u64(990_000), MemoBytes::empty())
+        .expect("sapling output");
+    let PcztResult { pczt_parts, .. } =
+        builder.build_for_pczt(ChaCha20Rng::seed_from_u64(seed ^ 0x0511), &zip317::FeeRule::standard()).expect("build_for_pczt");
+    let pre = Creator::build_from_parts(pczt_parts).expect("creator");
+    let pczt = IoFinalizer::new(pre.clone()).finalize_io().expect("io finalizer");
+    Base { name: "s2s_dummy", pre, pczt, tkeys: vec![], orchard_ask: None, ironwood_ask: None, sapling_ask: None, deferred: None }
+}
+
+#[derive(Clone, Copy, PartialEq, Eq, Debug)]
+enum GrowPool {
+    Sapling,
+    Orchard,
+    Ironwood,
+}
+
+/// A real PCZT that has NOT been IO-finalised, seen as the last stage of a growing bundle: every
+/// shorter stage is the same PCZT with the pool's item lists cut to a prefix and `value_sum` set to
+/// the balance of the items that remain (computed here from the items' own `value` fields).
+struct GrowBase {
+    name: String,
+    pool: GrowPool,
+    l: V,
+    /// Sapling: value of spend i / of output j.  Orchard, Ironwood: value spent / received by action i.
+    spend_vals: Vec<u64>,
+    out_vals: Vec<u64>,
+    /// no two stages within the abstract grid share a value balance (the binding of VS is injective)
+    injective: bool,
+}
+
+impl GrowBase {
+    fn bundle(&self) -> usize {
+        match self.pool {
+            GrowPool::Sapling => 2,
+            GrowPool::Orchard => 3,
+            GrowPool::Ironwood => 4,
+        }
+    }
+    /// how many items of the (first, second) list the base holds; Orchard has one list
+    fn lens(&self) -> (usize, usize) {
+        match self.pool {
+            GrowPool::Sapling => (self.spend_vals.len(), self.out_vals.len()),
+            _ => (self.spend_vals.len(), 0),
+        }
+    }
+    /// The concrete value balance bound to the specification's VS(i, j).
+    fn value_sum(&self, i: usize, j: usize) -> i128 {
+        let sp = |k: usize| self.spend_vals[k] as i128;
+        let out = |k: usize| self.out_vals[k] as i128;
+        match self.pool {
+            GrowPool::Sapling => (0..i).map(sp).sum::<i128>() - (0..j).map(out).sum::<i128>(),
+            _ => (0..i).map(|k| sp(k) - out(k)).sum::<i128>(),
+        }
+    }
+    fn value_sum_v(&self, i: usize, j: usize) -> V {
+        let x = self.value_sum(i, j);
+        match self.pool {
+            GrowPool::Sapling => V::I(x),
+            _ => V::Rec(vec![V::U(x.unsigned_abs() as u64), V::U((x < 0) as u64)]),
+        }
+    }
+
+    fn new(base: &Base, pool: GrowPool) -> Option<GrowBase> {
+        let mut l = logical_of(&base.pre);
+        let sl = s_pczt(Form::Logical);
+        let val = |v: &V| v.opt().unwrap_or_else(|| panic!("growth base {}: an item carries no value", base.name)).u();
+        let (b, spend_vals, out_vals): (usize, Vec<u64>, Vec<u64>) = match pool {
+            GrowPool::Sapling => {
+                let sb = l.field(&sl, "sapling");
+                let ss = s_sapling(true);
+                (
+                    2,
+                    sb.field(&ss, "spends").seq().iter().map(|x| val(x.field(&s_sspend(), "value"))).collect(),
+                    sb.field(&ss, "outputs").seq().iter().map(|x| val(x.field(&s_soutput(), "value"))).collect(),
+                )
+            }
+            GrowPool::Orchard | GrowPool::Ironwood => {
+                let ob = l.field(&sl, if pool == GrowPool::Orchard { "orchard" } else { "ironwood" });
+                let sa = s_action(Form::Logical);
+                let acts = ob.field(&s_orchard(Form::Logical), "actions").seq();
+                (
+                    if pool == GrowPool::Orchard { 3 } else { 4 },
+                    acts.iter().map(|a| val(a.field(&sa, "spend").field(&s_ospend(Form::Logical), "value"))).collect(),
+                    acts.iter().map(|a| val(a.field(&sa, "output").field(&s_ooutput(Form::Logical), "value"))).collect(),
+                )
+            }
+        };
+        if spend_vals.is_empty() && out_vals.is_empty() {
+            return None;
+        }
+        // never IO-finalised: no bsk
+        let bsk_field = if pool == GrowPool::Sapling { 4 } else { 6 };
+        *at_mut(&mut l, &[Step::F(b), Step::F(bsk_field)]) = none();
+        let mut g = GrowBase { name: format!("{}/{:?}", base.name, pool).to_lowercase(), pool, l, spend_vals, out_vals, injective: true };
+        // the binding of VS is sound: the whole lists give the value balance the real builder wrote, and
+        // no two stages within the abstract grid share a balance
+        let (ns, no) = g.lens();
+        let own = g.value_sum_v(ns, no);
+        let real = at(&g.l, &[Step::F(b), Step::F(2)]);
+        assert_eq!(&own, real, "growth base {}: value_sum is not the balance of the items' values", g.name);
+        let mut seen = BTreeSet::new();
+        for i in 0..=ns.min(2) {
+            for j in 0..=no.min(2) {
+                // (a zero-valued dummy item makes two stages share a balance: the comparison stays sound,
+                // it only cannot tell those two stages' balances apart)
+                g.injective &= seen.insert(g.value_sum(i, j));
+            }
+        }
+        Some(g)
+    }
+
+    /// The concrete logical value of one abstract copy [flags, ns, no, vs, bsk] (or of the predicted result).
+    fn realise(&self, party: &J) -> V {
+        let mut l = self.l.clone();
+        let b = self.bundle();
+        let n = |k: &str| party[k].as_u64().unwrap_or_else(|| panic!("growth copy without {k}")) as usize;
+        *at_mut(&mut l, &P_FLAGS) = V::U(n("flags") as u64);
+        let cut = |l: &mut V, field: usize, len: usize| match at_mut(l, &[Step::F(b), Step::F(field)]) {
+            V::Seq(xs) => {
+                assert!(len <= xs.len(), "case does not apply to this base");
+                xs.truncate(len)
+            }
+            _ => panic!("not a list"),
+        };
+        cut(&mut l, 0, n("ns"));
+        if self.pool == GrowPool::Sapling {
+            cut(&mut l, 1, n("no"));
+        } else {
+            assert_eq!(n("no"), 0, "a one-axis bundle has no second list");
+        }
+        let vs = party["vs"].as_array().expect("vs");
+        *at_mut(&mut l, &[Step::F(b), Step::F(2)]) = self.value_sum_v(vs[0].as_u64().unwrap() as usize, vs[1].as_u64().unwrap() as usize);
+        let bsk_field = if self.pool == GrowPool::Sapling { 4 } else { 6 };
+        *at_mut(&mut l, &[Step::F(b), Step::F(bsk_field)]) = match n("bsk") {
+            0 => none(),
+            1 => some(V::B(vec![0x51; 32])),
+            _ => some(V::B(vec![0x52; 32])),
+        };
+        l
+    }
+
+    fn applies(&self, case: &J) -> bool {
+        let (ns, no) = self.lens();
+        let sapling_kind = case["k"].as_str().unwrap().starts_with("growS");
+        sapling_kind == (self.pool == GrowPool::Sapling)
+            && case["ps"].as_array().unwrap().iter().all(|p| {
+                let vs = p["vs"].as_array().unwrap();
+                p["ns"].as_u64().unwrap() as usize <= ns
+                    && p["no"].as_u64().unwrap() as usize <= no
+                    && vs[0].as_u64().unwrap() as usize <= ns
+                    && vs[1].as_u64().unwrap() as usize <= no
+            })
+    }
+}
+
+fn grow_bases_for(seed: u64) -> Vec<GrowBase> {
+    let mut v = vec![];
+    for (base, pools) in [
+        (base_s2s2(seed), vec![GrowPool::Sapling]),
+        (base_s2s(seed), vec![GrowPool::Sapling]),
+        (base_s2s_dummy(seed), vec![GrowPool::Sapling]),
+        (base_t2o(seed), vec![GrowPool::Orchard]),
+        (base_o2o(seed), vec![GrowPool::Orchard]),
+        (base_o2i(seed), vec![GrowPool::Orchard, GrowPool::Ironwood]),
+    ] {
+        for pool in pools {
+            if let Some(g) = GrowBase::new(&base, pool) {
+                v.push(g);
+            }
+        }
+    }
+    v
+}
+
+#[derive(Default)]
+struct GrowStats {
+    cases: usize,
+    /// cases with two copies of which one is longer on exactly ONE axis, and some grouping succeeds
+    one_axis: usize,
+    /// two-copy cases of that shape that combine
+    one_axis_pairs_joined: usize,
+    /// cases with two copies that each grew on a different axis (no copy holds the join's value balance)
+    incomparable: usize,
+    /// cases in which some groupings succeed and others are refused
+    order_dependent: usize,
+    /// cases with copies from both sides of IO finalisation and different lengths
+    cross_stage: usize,
+    cases_non_injective: usize,
+    per_base: BTreeMap<String, usize>,
+}
+
+fn grow_classify(case: &J, gs: &mut GrowStats) {
+    let ps = case["ps"].as_array().unwrap();
+    let g = |p: &J, k: &str| p[k].as_u64().unwrap();
+    let any = case["any"].as_bool().unwrap();
+    let (mut one, mut inc, mut cross) = (false, false, false);
+    for a in ps {
+        for b in ps {
+            let (ds, dout) = (g(a, "ns").cmp(&g(b, "ns")), g(a, "no").cmp(&g(b, "no")));
+            use std::cmp::Ordering::*;
+            if g(a, "bsk") == 0 && g(b, "bsk") == 0 && matches!((ds, dout), (Less, Equal) | (Equal, Less)) {
+                one = true;
+            }
+            if matches!((ds, dout), (Less, Greater)) {
+                inc = true;
+            }
+            if (g(a, "bsk") != 0) != (g(b, "bsk") != 0) && (ds != Equal || dout != Equal) {
+                cross = true;
+            }
+        }
+    }
+    gs.cases += 1;
+    if one && any {
+        gs.one_axis += 1;
+        if ps.len() == 2 && case["out"]["ok"].as_bool().unwrap() {
+            gs.one_axis_pairs_joined += 1;
+        }
+    }
+    gs.incomparable += inc as usize;
+    gs.cross_stage += cross as usize;
+    let nbad = case["bad"].as_array().unwrap().len();
+    if any && nbad > 0 {
+        gs.order_dependent += 1;
+    }
+}
+
+/// Runs one growth case on one base: every copy is made with the own encoder and parsed by the real
+/// `Pczt::parse`; every grouping and order is executed on the real Combiner and compared with the
+/// prediction for THAT grouping (refused, or the one predicted result, byte for byte).
+fn run_grow_case(gb: &GrowBase, case: &J, trees: &[Vec<u64>], alt_seed: usize, st: &mut MergeStats) -> Option<J> {
+    let ps = case["ps"].as_array().unwrap();
+    let mut parties = vec![];
+    for (i, p) in ps.iter().enumerate() {
+        let l = gb.realise(p);
+        let bytes = party_bytes(&l, (alt_seed + i) % 3 == 0);
+        match guarded(|| Pczt::parse(&bytes)) {
+            Ok(Ok(p)) => parties.push(p),
+            Ok(Err(e)) => {
+                return Some(json!({"what": "parse rejected a well-formed encoding", "party": i, "error": format!("{e:?}"), "bytes": hex(&bytes)}));
+            }
+            Err(m) => return Some(json!({"what": "parse panicked", "party": i, "panic": m})),
+        }
+    }
+    let want = if case["any"].as_bool().unwrap() {
+        let l = gb.realise(&case["v"]);
+        let bytes = canonical_bytes(&l);
+        st.joins_predicted += 1;
+        st.results.insert(digest16(&bytes));
+        if bytes[4] == 1 { st.v1 += 1 } else { st.v2 += 1 }
+        Some((l, bytes))
+    } else {
+        st.conflicts_predicted += 1;
+        None
+    };
+    st.cases += 1;
+    let bad: BTreeSet<Vec<u64>> =
+        case["bad"].as_array().unwrap().iter().map(|t| t.as_array().unwrap().iter().map(|x| x.as_u64().unwrap()).collect()).collect();
+    execute_trees_with(&parties, &want, trees, st, &|t| bad.contains(t))
+}
+
 struct MergeInput {
     trees: BTreeMap<usize, Vec<Vec<u64>>>,
     cases: Vec<J>,
@@ -1861,6 +2207,9 @@ fn cmd_merge(cases_path: &str, tier: &str) {
         kind_idx.clear();
         for case in &inp.cases {
             let k = case["k"].as_str().unwrap();
+            if k.starts_with("grow") {
+                continue;
+            }
             let idx = {
                 let e = kind_idx.entry(k.to_string()).or_insert(0);
                 *e += 1;
@@ -1878,6 +2227,45 @@ fn cmd_merge(cases_path: &str, tier: &str) {
                     if mismatch_keys.insert(key) && mismatches.len() < 40 {
                         mismatches.push(json!({"kind": "merge", "base": base.name, "case": case, "binding": b.describe(), "idx": idx, "detail": m,
                                                "trees": trees, "seed": seed, "tier": tier}));
+                    }
+                }
+            }
+        }
+    }
+    // growing shielded bundles (PcztGrowth): every case on every base whose lists are long enough
+    let mut gs = GrowStats::default();
+    if inp.cases.iter().any(|c| c["k"].as_str().unwrap().starts_with("grow")) {
+        let grow_bases = grow_bases_for(seed);
+        kind_idx.clear();
+        for case in &inp.cases {
+            let k = case["k"].as_str().unwrap();
+            if !k.starts_with("grow") {
+                continue;
+            }
+            let idx = {
+                let e = kind_idx.entry(k.to_string()).or_insert(0);
+                *e += 1;
+                *e - 1
+            };
+            let n = case["ps"].as_array().unwrap().len();
+            let trees = &inp.trees[&n];
+            for (bi, gb) in grow_bases.iter().enumerate() {
+                if !gb.applies(case) {
+                    continue;
+                }
+                *per_kind.entry(k.to_string()).or_insert(0) += 1;
+                *gs.per_base.entry(format!("{}{}", gb.name, if gb.injective { "" } else { " (two stages share a balance)" })).or_insert(0) += 1;
+                if !gb.injective {
+                    // counted, executed and compared, but not part of the vacuity guard's numbers
+                    gs.cases_non_injective += 1;
+                } else {
+                    grow_classify(case, &mut gs);
+                }
+                if let Some(m) = run_grow_case(gb, case, trees, idx + bi, &mut st) {
+                    let key = format!("grow|{}|{}|{}", k, m["what"], gb.name);
+                    if mismatch_keys.insert(key) && mismatches.len() < 40 {
+                        mismatches.push(json!({"kind": "grow", "base": gb.name, "case": case, "binding": {"pool": format!("{:?}", gb.pool)}, "idx": idx + bi,
+                                               "detail": m, "trees": trees, "seed": seed, "tier": tier}));
                     }
                 }
             }
@@ -1961,6 +2349,9 @@ fn cmd_merge(cases_path: &str, tier: &str) {
         json!({"codec_checked_bases": codec_n, "role_cases": role_cases, "role_cases_skipped": role_skipped, "role_classes": role_classes,
                "cases": st.cases, "combines": st.combines, "conflicts_predicted": st.conflicts_predicted,
                "joins_predicted": st.joins_predicted, "distinct_results": st.results.len(), "v1_results": st.v1, "v2_results": st.v2,
+               "grow": {"cases": gs.cases, "cases_on_bases_with_shared_balances": gs.cases_non_injective, "one_axis": gs.one_axis, "one_axis_pairs_joined": gs.one_axis_pairs_joined, "incomparable": gs.incomparable,
+                        "order_dependent": gs.order_dependent, "cross_stage": gs.cross_stage, "refused_groupings": st.refused_groupings,
+                        "per_base": gs.per_base},
                "per_kind": per_kind, "slot_classes": classes.len(), "classes": classes, "bases": bases.iter().map(|b| b.name).collect::<Vec<_>>(),
                "mismatches": mismatches})
     );
@@ -3419,6 +3810,15 @@ fn role_parties(base: &Base, base_l: &V, reds: &[RedactDef], case: &J, bound: &B
 fn cmd_rerun(path: &str) {
     let rep: J = serde_json::from_str(&std::fs::read_to_string(path).expect("read replay")).expect("json");
     let seed = rep["seed"].as_u64().unwrap_or(1);
+    if rep["kind"] == "grow" {
+        let trees: Vec<Vec<u64>> = rep["trees"].as_array().unwrap().iter().map(|x| x.as_array().unwrap().iter().map(|y| y.as_u64().unwrap()).collect()).collect();
+        let bases = grow_bases_for(seed);
+        let gb = bases.iter().find(|b| b.name == rep["base"].as_str().unwrap()).expect("growth base");
+        let mut st = MergeStats::default();
+        let res = run_grow_case(gb, &rep["case"], &trees, rep["idx"].as_u64().unwrap_or(0) as usize, &mut st);
+        println!("{}", json!({"mismatch": res}));
+        return;
+    }
     let bases = bases_for(rep["tier"].as_str().unwrap_or("quick"), seed);
     let base = bases.iter().find(|b| b.name == rep["base"].as_str().unwrap()).expect("base");
     let base_l = logical_of(&base.pczt);
